@@ -139,9 +139,13 @@ class SxSet:
             n = len(items)
             if n <= 3:
                 perms = list(itertools.permutations(range(n)))
-            else:
+            elif n <= 6:
                 perms = [tuple((i + r) % n for i in range(n)) for r in range(n)]
                 perms += [tuple(reversed(p)) for p in perms]
+            else:
+                # identity + reversal already put every pair of elements in both orders
+                ident = tuple(range(n))
+                perms = [ident, tuple(reversed(ident)), tuple((i + 1) % n for i in range(n)), tuple((i + n // 2) % n for i in range(n))]
             k = ctx.choose(len(perms))
             self._order_cache = (len(items), perms[k], ctx)
             items = [items[i] for i in perms[k]]
